@@ -25,6 +25,7 @@ type c10Arg struct {
 	PL     int    `json:"pl"`
 	Single bool   `json:"single"`
 	Seq    bool   `json:"seq"`
+	Gate   bool             `json:"gate,omitempty"` // piece writes are held until the explorer releases them
 	Cfg    map[string]int64 `json:"cfg,omitempty"` // configuration fields set to the given value (C17: small and zero-adjacent limits)
 	Source string `json:"src"` // peer | web | both | rain (a real rain seeding session, MSE negotiated)
 	Adv    bool   `json:"adv"` // a second, misbehaving peer is present (deviation alphabet enabled)
@@ -143,6 +144,7 @@ func mkC10() *Scenario {
 		} else {
 			w.AddTorrent(g, opt)
 		}
+		w.Store.GateWrites = arg.Gate
 		o := &StdOpts{Behaviour: map[string]*PeerBehaviour{}, IdleAdvance: 0}
 		o.Script = append(o.Script, &ScriptItem{Label: "start", Do: func(w *World) { w.CmdStart() }})
 		if arg.Source == "web" || arg.Source == "both" || arg.Source == "web2" {
@@ -407,10 +409,13 @@ func c10Class(a c10Arg) string {
 
 // c10IdlePeer: at a drained point, no idle unchoked peer holding a needed unrequested piece is left without a request.
 func c10IdlePeer(w *World, arg c10Arg, p1 *Peer) {
-	if p1 == nil || arg.Source != "peer" {
+	if p1 == nil || (arg.Source != "peer" && arg.Source != "both") {
 		return
 	}
 	s := w.Tor.VerifState()
+	if arg.Source == "both" && s.WebseedActive > 0 {
+		return // a web seed download is running: the needed piece may be inside its range
+	}
 	if s.Status != "Downloading" || !p1.Connected() || !p1.Announced || !p1.GotHS {
 		return
 	}
@@ -498,6 +503,14 @@ func TestC10(t *testing.T) {
 			a.Source, a.Adv = src, true
 			runs = append(runs, Run{Scenario: "c10", Arg: a, Budget: 1, MaxExec: 20000})
 			n++
+		}
+	}
+	// peer + web seed with piece writes held: results of the web seed queue up behind a write while the peer goes on
+	for i, l := range layouts {
+		if i%17 == 3 {
+			a := l
+			a.Source, a.Adv, a.Gate = "both", true, true
+			runs = append(runs, Run{Scenario: "c10", Arg: a, Budget: 1, MaxExec: 20000})
 		}
 	}
 	rep.Extra["layouts"] = int64(len(layouts))
